@@ -26,6 +26,7 @@ package api
 
 import (
 	"context"
+	"encoding/base64"
 	"encoding/json"
 	"fmt"
 	"sort"
@@ -146,7 +147,7 @@ func c08NewServer(t testing.TB, st c08State, thorough bool) *apih.Server {
 	if st.Cfg == "plain" {
 		o.Namespaces = c08PlainNamespaces()
 	} else {
-		o.OPL = c08OPL
+		o.Config["namespaces"] = c08OPLLocation()
 		o.Config["limit.max_batch_check_size"] = c08MaxBatch(st.Cfg)
 	}
 	s := apih.NewServer(t, o)
@@ -1035,6 +1036,12 @@ func TestC08(t *testing.T) {
 		"exhaustive":           !timedOut.Load() && unstable == 0,
 		"workers":              workers,
 	})
+}
+
+// c08OPLLocation passes the OPL text as a base64:// location (decoded locally by keto; no
+// file watcher, so many servers do not exhaust inotify instances).
+func c08OPLLocation() map[string]any {
+	return map[string]any{"location": "base64://" + base64.StdEncoding.EncodeToString([]byte(c08OPL))}
 }
 
 // c08FinalSig: the structural class of a failing batch is transport, failure
